@@ -51,14 +51,14 @@ def imageRO (abi : Abi) (s : St State) (c : ROCall) : Out (MW × State × Res) :
       if d.fd < 0 then ret w s.host BADF else
       doRead w s.host iovs cnt res fun h lens => h.pread d.fd lens.sum (toOffT off)
   | .fdSeek n off wh res =>
-    match specWhence abi wh with
-    | none => ret w s.host INVAL
-    | some wnc =>
-      match getDesc Cfg.ofGen s n with
-      | none => ret w s.host BADF
-      | some d =>
-        if d.fd < 0 then ret w s.host BADF else
-        finishSeek w res (s.host.lseek d.fd (toOffT off) wnc)
+    -- lseek(2): EBADF for an invalid descriptor comes before EINVAL for an invalid whence
+    match getDesc Cfg.ofGen s n with
+    | none => ret w s.host BADF
+    | some d =>
+      if d.fd < 0 then ret w s.host BADF else
+      match specWhence abi wh with
+      | none => ret w s.host INVAL
+      | some wnc => finishSeek w res (s.host.lseek d.fd (toOffT off) wnc)
   | .fdTell n res =>
     match getDesc Cfg.ofGen s n with
     | none => ret w s.host BADF
@@ -105,14 +105,13 @@ def runImage (s : St State) : List (Abi × Call) → Out (St State × List Res)
 /-- the side conditions under which the emulation in `wasi.c` coincides with the POSIX
     operation (everything else coincides unconditionally):
     positional calls — the descriptor is a regular file, the offset is below 2^63 and within the
-    file system's largest offset, at most IOV_MAX segments; fd_filestat_get — the preview1 ABI -/
+    file system's largest offset, at most IOV_MAX segments; fd_seek — the offset is a 64-bit value -/
 def Good (abi : Abi) (s : St State) : Call → Prop
   | .ro (.fdPwrite n _ cnt off _) | .ro (.fdPread n _ cnt off _) =>
     ∀ d, getDesc Cfg.ofGen s n = some d → 0 ≤ d.fd →
       off < 2 ^ 63 ∧ off ≤ s.host.maxBytes ∧ cnt ≤ IOV_MAX ∧
       ∃ ino pos acc flags f, IsFile s.host d.fd ino pos acc flags f ∧ f.size ≤ s.host.maxBytes
   | .ro (.fdSeek _ off _ _) => off < 2 ^ 64
-  | .ro (.fdFilestatGet _ _) => abi = .preview1
   | _ => True
 
 def GoodRun : St State → List (Abi × Call) → Prop
@@ -144,8 +143,8 @@ theorem asOffT_64_eq_toOffT (v : Nat) (h : v < 2 ^ 64) : asOffT 64 v = toOffT v 
     have h2 : 2 * v < 2 ^ 64 := by omega
     rw [if_pos h2]
 
-theorem storeFilestat_preview1_eq_spec (w : MW) (p : Nat) (st : Stat) :
-    storeFilestat .preview1 w p st = storeFilestatSpec .preview1 w p st := rfl
+theorem storeFilestat_eq_spec (abi : Abi) (w : MW) (p : Nat) (st : Stat) :
+    storeFilestat abi w p st = storeFilestatSpec abi w p st := by cases abi <;> rfl
 
 end W2c2Verif.Model.Wasi
 
@@ -176,7 +175,6 @@ theorem stepRO_eq_image (abi : Abi) (s : St State) (c : ROCall) (hg : Good abi s
   have hpw : Cfg.ofGen.pwriteOffsetBits abi = 64 := by cases abi <;> rfl
   have hpr : Cfg.ofGen.preadOffsetBits abi = 64 := by cases abi <;> rfl
   have hsk : Cfg.ofGen.seekOffsetBits abi = 64 := by cases abi <;> rfl
-  have hwf : Cfg.ofGen.seekChecksWhenceFirst = true := rfl
   cases c with
   | fdWrite n iovs cnt res =>
     simp only [stepRO, imageRO]
@@ -220,19 +218,24 @@ theorem stepRO_eq_image (abi : Abi) (s : St State) (c : ROCall) (hg : Good abi s
         · exact wrapPositional_readv_eq_pread hf off hoff lens hz (by omega) hsz
   | fdSeek n off wh res =>
     have ho : off < 2 ^ 64 := hg
-    simp only [stepRO, imageRO, hwf, ↓reduceIte, whenceOf_eq_spec]
-    cases specWhence abi wh with
+    have hwf : Cfg.ofGen.seekChecksWhenceFirst = false := rfl
+    simp only [stepRO, imageRO, hwf, Bool.false_eq_true, ↓reduceIte, whenceOf_eq_spec]
+    cases hd : getDesc Cfg.ofGen s n with
     | none => rfl
-    | some w =>
-      simp only [doSeek, hsk, asOffT_64_eq_toOffT off ho, posixHost]
-      cases getDesc Cfg.ofGen s n <;> rfl
+    | some d =>
+      simp only
+      by_cases hneg : d.fd < 0
+      · simp only [hneg, ↓reduceIte]
+      · simp only [hneg, ↓reduceIte]
+        cases specWhence abi wh with
+        | none => rfl
+        | some w =>
+          simp only [doSeek, hd, hneg, ↓reduceIte, hsk, asOffT_64_eq_toOffT off ho, posixHost]
   | fdTell n res =>
     simp only [stepRO, imageRO, doSeek, posixHost]
     cases getDesc Cfg.ofGen s n <;> rfl
   | fdFilestatGet n ptr =>
-    have ha : abi = .preview1 := hg
-    subst ha
-    simp only [stepRO, imageRO, storeFilestat_preview1_eq_spec]
+    simp only [stepRO, imageRO, storeFilestat_eq_spec]
     cases getDesc Cfg.ofGen s n with
     | none => rfl
     | some d =>
